@@ -338,6 +338,16 @@ class SeqText:
             return SeqText(self.chars[k])
         return SeqText([self.chars[k]])
 
+    def sx_int(self, base=None):
+        # int(text): the value of the decimal digits (symbolic); str() of it is not modelled -> the caller sees a number
+        v = 0
+        for c in self.chars:
+            b = c.get('iso8859-1')
+            if b is None or len(b) != 1:
+                raise ValueError('invalid literal for int()')
+            v = v * 10 + (b[0] - 48)
+        return v
+
     def encode(self, encoding='utf-8', errors='strict'):
         name = codecs.lookup(encoding).name
         out = []
@@ -368,6 +378,8 @@ def cases_b(tier):
     add('text-latin1/sjis:v1:25', 'text', 25, version=1, error='L', mask=3)
     add('text-utf8-only:v1:12', 'text8', 12, version=1, error='L', mask=2)
     add('text-utf8-only:count3:12', 'text8', 12, symbol_count=3, mask=2)
+    add('numeric-leading-zeros:v1', 'zeros', 60, version=1, error='L', mask=1)
+    add('numeric-leading-zeros:count3', 'zeros', 12, symbol_count=3, mask=2)
     add('bytes:single:5', 'bytes', 5, version=2, mask=1)
     add('bytes:count1:5', 'bytes', 5, symbol_count=1, mask=1)
     if tier == 'thorough':
@@ -392,6 +404,13 @@ def build_b(case):
             allb += [a]
             assume.append(z3.UGE(a.word(8), 0xa1))      # non-ASCII Latin-1 character -> byte mode
         return SeqText(chars), SBytes(allb), assume, chars
+    if kind == 'zeros':
+        # digit text that starts with zeros (first four characters concrete '0049', the rest symbolic digits)
+        sb = SBytes([0x30, 0x30, 0x34, 0x39] + list(SBytes.fresh('z', n - 4).d))
+        for b in sb.d[4:]:
+            assume += [z3.UGE(b.word(8), 0x30), z3.ULE(b.word(8), 0x39)]
+        chars = [{'iso8859-1': [b], 'shift_jis': [b], 'utf-8': [b]} for b in sb.d]
+        return SeqText(chars), sb, assume, chars
     if kind == 'text8':
         # characters that only UTF-8 can encode (three bytes each): the byte count differs from the character count
         chars = []
@@ -418,7 +437,7 @@ def build_b(case):
             else:
                 assume += [z3.UGE(w, 0x40), z3.ULE(w, 0xfc), w != 0x7f]
         elif kind == 'bytes' and i == 0:
-            assume.append(z3.UGE(w, 0xa1))     # keeps the content in byte mode for every byte value of the rest
+            assume += [z3.UGE(w, 0xa1), z3.ULE(w, 0xdf)]     # never a digit, alphanumeric or Shift JIS lead byte: byte mode for every value of the rest
     if kind in ('numeric', 'alnum'):
         # text content (encode_sequence re-chunks str(content)); ASCII characters encode to the same byte in every codec
         chars = [{'iso8859-1': [b], 'shift_jis': [b], 'utf-8': [b]} for b in sb.d]
